@@ -45,6 +45,8 @@ Record ecase := {
   e_scripts : list arr3;               (* per configured sampler: the scripted (R, P, V) array *)
   (* observations *)
   e_rejected : bool;                   (* EnOptConfig validation raised *)
+  e_caller_kept : bool;                (* a GradientConfig instance passed by the caller (and used for another
+                                          configuration before) still holds what the caller wrote *)
   e_mags : list Q;                     (* config.gradient.perturbation_magnitudes after validation *)
   e_calls : list ecall
 }.
@@ -137,7 +139,7 @@ Definition check_eval (c : ecase) : bool :=
       let ubs' := bounds_to_opt (e_scale c) (e_offset c) (e_ubs c) in
       let order := sampler_order (e_gs c) in
       let samples := run_samplers (e_gs c) (e_mask c) (e_scripts c) in
-      negb (e_rejected c) &&
+      negb (e_rejected c) && e_caller_kept c &&
       forallb2 (qcmp ex S) (e_mags c) mags && Nat.eqb (length (e_mags c)) V &&
       negb (Nat.eqb (length order) 0) &&
       negb (Nat.eqb (length (e_calls c)) 0) &&
